@@ -81,7 +81,7 @@ def run(project: Project, rep, tier: str):
         rep.unmodelled("HT-KER", fi_k, fi_k.node, f"kernel value not fully modelled: {r_k!r}"[:300])
         return
     spec = kernel_spec("F", "G", sigma)
-    ok, w = symeval.equivalent(r_k.e, spec, positive_syms={"sigma"}, trials=16)
+    ok, w = symeval.equivalent(r_k.e, spec, positive_syms={"sigma"}, trials=16, degenerate=True)
     if ok is True:
         rep.discharged("HT-KER", fi_k, fi_k.node, "kernel = (1/8πσ)·ΣΣ[exp(−|p−q|²/8σ) − exp(−|p−q̄|²/8σ)] over all pairs",
                        derived=sym.show(r_k.e)[:300])
